@@ -1207,6 +1207,18 @@ example : (runOps fuelBound exNet [.ping 0 0xC0A80202#32 2, .power 1 false, .pin
     .ping 2 0xC0A80102#32 1, .ping 0 0xC0A80263#32 1, .arpclear 0, .disable 2 0, .ping 0 0xC0A80202#32 1, .enable 2 0,
     .ping 0 0xC0A80202#32 1]).2 = [true, true, false, true, true, false, true, true, false, true, true] := by decide +kernel
 example : (runOps fuelBound exNet [.ping 0 0xC0A80202#32 2]).1.oof = false := by decide +kernel
+/-- application exchanges across the router: answered when the server runs the service, its port is open on both hosts and the
+router permits it; not answered when the router has no rule for it; ignored (no hand-over) when the port is closed. -/
+def exApp (routerPermits : Bool) (clientPort : Bool) : St :=
+  { exNet with nodes := exNet.nodes.zipIdx.map (fun (nd, k) =>
+      if k == 2 then { nd with serves := [53], ports := [53] }
+      else if k == 1 then { nd with serves := if routerPermits then [53] else [] }
+      else { nd with ports := if clientPort then [53] else [] }) }
+example : (runOps fuelBound (exApp true true) [.app 0 0xC0A80202#32 53 true, .app 0 0xC0A80202#32 53 false, .app 0 0xC0A80202#32 80 true]).2 =
+    [true, false, false] := by decide +kernel
+example : (runOps fuelBound (exApp false true) [.app 0 0xC0A80202#32 53 true]).2 = [false] := by decide +kernel
+example : (runOps fuelBound (exApp true false) [.app 0 0xC0A80202#32 53 true]).2 = [false] := by decide +kernel
+
 /-- every class is inhabited: frames the interpreter builds on `exNet`. -/
 def exP : Frame :=
   { id := 0, srcMac := 2, dstMac := 1, srcIp := 0xC0A80101#32, dstIp := 0xC0A80102#32, ttl := 64,
